@@ -496,29 +496,69 @@ func c02HandOver(run *core.Run, pfx, what string, r *c02Runner) {
 		isCloseDone := func(in ssa.Instruction) bool {
 			return c02IsBuiltinCall(in, "close") && c02Var(core.AsCall(in).Common().Args[0]) == home
 		}
+		// closures the goroutine runs exactly once on the spot (`withLock(&lock, func() { resp, err = handler(ctx, req); close(done) })`)
+		// are part of its straight-line code
+		sync := c02SyncClosures(r.body)
 		n := 0
 		for _, cl := range r.closes {
 			if !isCloseDone(cl) {
 				continue
 			}
 			n++
-			if _, isCall := cl.(*ssa.Call); !isCall || cl.Parent() != r.body {
+			if _, isCall := cl.(*ssa.Call); !isCall || (cl.Parent() != r.body && sync[cl.Parent()] == nil) {
 				o.Fail(p.InstrPos(cl), "completion channel closed in a deferred call/closure: it is also closed when the handler panicked, so the select may flush a half-written response and lose the panic")
 			}
 		}
+		// in the goroutine function itself, running a closure that closes the channel on every path counts as closing it
+		closesIn := func(f *ssa.Function) func(ssa.Instruction) bool {
+			if f != r.body {
+				return isCloseDone
+			}
+			var runs []ssa.Instruction
+			for c, run := range sync {
+				if len(core.Instrs(c, isCloseDone)) > 0 && core.MustPass(core.Entry(c), isCloseDone, core.IsReturn) == nil {
+					runs = append(runs, run)
+				}
+			}
+			return core.Or(isCloseDone, core.Is(runs...))
+		}
+		// closing inside a closure that may not close on every path is still a close for "not before the handler"
+		anyCloseIn := func(f *ssa.Function) func(ssa.Instruction) bool {
+			if f != r.body {
+				return isCloseDone
+			}
+			var runs []ssa.Instruction
+			for c, run := range sync {
+				if len(core.Instrs(c, isCloseDone)) > 0 {
+					runs = append(runs, run)
+				}
+			}
+			return core.Or(isCloseDone, core.Is(runs...))
+		}
+		butNot := func(pred func(ssa.Instruction) bool, x ssa.Instruction) func(ssa.Instruction) bool {
+			return func(in ssa.Instruction) bool { return in != x && pred(in) }
+		}
 		o.Site(n+len(r.handlerCalls), core.FuncName(r.body))
 		for _, h := range r.handlerCalls {
-			if h.Parent() != r.body {
-				o.Fail(p.InstrPos(h), "handler called from a nested closure (shape not understood)")
-				continue
+			hf, hin := h.Parent(), h
+			if hf != r.body {
+				run := sync[hf]
+				if run == nil {
+					o.Fail(p.InstrPos(h), "handler called from a nested closure (shape not understood)")
+					continue
+				}
+				if len(core.Instrs(hf, isCloseDone)) == 0 {
+					hf, hin = r.body, run // the closure only runs the handler; closing is up to the goroutine function
+				} else if w := core.Precedes(r.body, core.Is(run), butNot(anyCloseIn(r.body), run)); w != nil {
+					o.Fail(p.InstrPos(w), "completion channel closed before the handler ran")
+				}
 			}
-			if w := core.MustPass(core.After(h), isCloseDone, core.IsReturn); w != nil {
+			if w := core.MustPass(core.After(hin), closesIn(hf), core.IsReturn); w != nil {
 				o.Fail(p.InstrPos(w), "the goroutine can return after the handler finished without closing the completion channel (the request then waits for the deadline)")
 			}
-		}
-		isH := core.Is(r.handlerCalls...)
-		if w := core.Precedes(r.body, isH, isCloseDone); w != nil {
-			o.Fail(p.InstrPos(w), "completion channel closed before the handler ran")
+			if w := core.Precedes(hf, core.Is(hin), butNot(anyCloseIn(hf), hin)); w != nil {
+				o.Fail(p.InstrPos(w), "completion channel closed before the handler ran")
+			}
 		}
 	})
 }
@@ -640,4 +680,194 @@ func sliceLiteralElems(v ssa.Value) ([]ssa.Value, bool) {
 		}
 	}
 	return out, true
+}
+
+// c02FreeVarUsed reports whether the captured variable fv is used by its closure for anything but
+// being bound, unused again, into the closures it creates.
+func c02FreeVarUsed(fv *ssa.FreeVar, depth int) bool {
+	if fv.Referrers() == nil {
+		return false
+	}
+	for _, ref := range *fv.Referrers() {
+		switch x := ref.(type) {
+		case *ssa.DebugRef:
+		case *ssa.MakeClosure:
+			fn, ok := x.Fn.(*ssa.Function)
+			if !ok || depth > 6 {
+				return true
+			}
+			for i, b := range x.Bindings {
+				if b == ssa.Value(fv) && (i >= len(fn.FreeVars) || c02FreeVarUsed(fn.FreeVars[i], depth+1)) {
+					return true
+				}
+			}
+		default:
+			return true
+		}
+	}
+	return false
+}
+
+// c02CallsOfParam lists the call instructions of h (call, defer, go) whose callee is its parameter pa.
+func c02CallsOfParam(h *ssa.Function, pa *ssa.Parameter) []ssa.Instruction {
+	return core.Instrs(h, func(in ssa.Instruction) bool {
+		c := core.AsCall(in)
+		if c == nil || c.Common().IsInvoke() {
+			return false
+		}
+		if _, isFn := c.Common().Value.(*ssa.Function); isFn {
+			return false
+		}
+		return c02Var(c.Common().Value) == ssa.Value(pa)
+	})
+}
+
+// c02RunsOnce reports whether the in-package function h runs its parameter #idx exactly once and
+// synchronously: a plain call on every path to a return, never twice, never deferred, spawned or handed
+// on, and h recovers no panic (`withLock(mu, fn)`: lock, defer unlock, fn()).
+func c02RunsOnce(h *ssa.Function, idx int) bool {
+	if h == nil || h.Blocks == nil || idx < 0 || idx >= len(h.Params) || h.Params[idx].Referrers() == nil {
+		return false
+	}
+	pa := h.Params[idx]
+	var calls []ssa.Instruction
+	for _, ref := range *pa.Referrers() {
+		switch x := ref.(type) {
+		case *ssa.DebugRef:
+		case *ssa.Call:
+			if x.Call.Value != ssa.Value(pa) {
+				return false
+			}
+			for _, a := range x.Call.Args {
+				if a == ssa.Value(pa) {
+					return false
+				}
+			}
+			calls = append(calls, x)
+		default:
+			return false
+		}
+	}
+	if len(calls) == 0 {
+		return false
+	}
+	isRun := core.Is(calls...)
+	if core.MustPass(core.Entry(h), isRun, core.IsReturn) != nil || core.AtMostOnce(h, isRun) != nil {
+		return false
+	}
+	for _, g := range c02WithClosures(h) {
+		if len(recoverCalls(g)) > 0 {
+			return false
+		}
+	}
+	return true
+}
+
+// c02SyncClosures maps the closures created in f that are run exactly once, synchronously, where they
+// are created - called on the spot, or handed to an in-package helper that runs its argument once
+// (c02RunsOnce) - to the call in f that runs them.
+func c02SyncClosures(f *ssa.Function) map[*ssa.Function]*ssa.Call {
+	out := map[*ssa.Function]*ssa.Call{}
+	for _, in := range core.Instrs(f, func(in ssa.Instruction) bool { _, ok := in.(*ssa.MakeClosure); return ok }) {
+		mc := in.(*ssa.MakeClosure)
+		fn, ok := mc.Fn.(*ssa.Function)
+		if !ok || mc.Referrers() == nil {
+			continue
+		}
+		var run *ssa.Call
+		n := 0
+		for _, ref := range *mc.Referrers() {
+			if _, dbg := ref.(*ssa.DebugRef); dbg {
+				continue
+			}
+			n++
+			if c, ok := ref.(*ssa.Call); ok {
+				run = c
+			}
+		}
+		if n != 1 || run == nil {
+			continue
+		}
+		if run.Call.Value == ssa.Value(mc) {
+			out[fn] = run
+			continue
+		}
+		h := run.Call.StaticCallee()
+		if h == nil || h.Pkg != f.Pkg {
+			continue
+		}
+		idx, cnt := -1, 0
+		for i, a := range run.Call.Args {
+			if a == ssa.Value(mc) {
+				idx, cnt = i, cnt+1
+			}
+		}
+		if cnt == 1 && c02RunsOnce(h, idx) {
+			out[fn] = run
+		}
+	}
+	return out
+}
+
+// c02ThroughSync resolves a value read in fn from a local variable that is assigned only inside a
+// closure run synchronously before the read (`withLock(&mu, func() { result = resp })`; `return result`)
+// to the variable the closure copies from; nil when v is not of that shape.
+func c02ThroughSync(fn *ssa.Function, v ssa.Value) ssa.Value {
+	ld, ok := core.Strip(v).(*ssa.UnOp)
+	if !ok || ld.Op != token.MUL {
+		return nil
+	}
+	al, ok := ld.X.(*ssa.Alloc)
+	if !ok || al.Parent() != fn {
+		return nil
+	}
+	var mc *ssa.MakeClosure
+	for _, ref := range *al.Referrers() {
+		switch x := ref.(type) {
+		case *ssa.DebugRef:
+		case *ssa.UnOp:
+			if x.Op != token.MUL {
+				return nil
+			}
+		case *ssa.MakeClosure:
+			if mc != nil {
+				return nil
+			}
+			mc = x
+		default:
+			return nil
+		}
+	}
+	if mc == nil {
+		return nil
+	}
+	c := mc.Fn.(*ssa.Function)
+	run := c02SyncClosures(fn)[c]
+	if run == nil || !core.Dominates(run, ld) {
+		return nil
+	}
+	var st *ssa.Store
+	for i, b := range mc.Bindings {
+		if b != ssa.Value(al) || i >= len(c.FreeVars) {
+			continue
+		}
+		fv := c.FreeVars[i]
+		for _, ref := range *fv.Referrers() {
+			switch x := ref.(type) {
+			case *ssa.DebugRef:
+			case *ssa.UnOp:
+			case *ssa.Store:
+				if x.Addr != ssa.Value(fv) || st != nil {
+					return nil
+				}
+				st = x
+			default:
+				return nil
+			}
+		}
+	}
+	if st == nil || core.MustPass(core.Entry(c), core.Is(st), core.IsReturn) != nil {
+		return nil
+	}
+	return c02Var(st.Val)
 }
